@@ -23,10 +23,12 @@ def main():
     seed, pid, variant = sys.argv[1], sys.argv[2], sys.argv[3]
     args = sys.argv[4:]
     dest = cmd = None
+    wt = "/tmp/confirm-wt"
     while args:
         a = args.pop(0)
         if a == "--dest": dest = args.pop(0)
         elif a == "--cmd": cmd = args.pop(0)
+        elif a == "--wt": wt = args.pop(0)
     md = open(os.path.join(seed, "demo.md")).read()
     if dest is None:
         m = re.search(r"`?((?:rustzx-[a-z0-9]+|vtx|aym)/(?:tests|src)[^\s`]*\.rs)`?", md)
@@ -38,7 +40,6 @@ def main():
         print("cannot determine demo destination / command; pass --dest / --cmd", dest, cmd); return 2
     if "--offline" not in cmd:
         cmd += " --offline"
-    wt = "/tmp/confirm-wt"
     if not os.path.isdir(wt):
         rc, out = sh(f"git -C /repo worktree add --detach {wt} HEAD", "/")
         if rc: print(out); return 2
